@@ -98,6 +98,9 @@ type Rec struct {
 	// Tail is written after the msg='…' wrapper (fields the kernel appends to some
 	// user records). It is rarely used.
 	Tail []F `json:"tail,omitempty"`
+	// UserClose replaces the closing quote of the msg='…' wrapper: old pam versions wrote
+	// "(hostname=?, addr=?, terminal=cron res=success)'".
+	UserClose string `json:"user_close,omitempty"`
 }
 
 func join(fs []F) string {
@@ -115,7 +118,11 @@ func (r Rec) Body() string {
 		if s != "" {
 			s += " "
 		}
-		s += "msg='" + join(r.User) + "'"
+		cl := "'"
+		if r.UserClose != "" {
+			cl = r.UserClose
+		}
+		s += "msg='" + join(r.User) + cl
 	}
 	if len(r.Tail) > 0 {
 		s += " " + join(r.Tail)
